@@ -209,3 +209,30 @@ package clickhouse_planner
 //@     go: if err := l.ProcessTpl(ctx); err != nil { panic(err) }
 //@     go: if l.formatStr != f1 || len(l.args) != n1 { confirm(fmt.Sprintf("second execution of the prepared line_format stage renders format %q with %d arguments, the first rendered %q with %d", l.formatStr, len(l.args), f1, n1)) }
 //@   end
+
+// ---------------------------------------------------------------- label filters (C07 operator mapping)
+
+// A numeric label filter `label OP number` becomes "value is a number AND
+// toFloat64OrNull(value) OP number" with the SQL comparison of the same name
+// (== != > >= < <=); a string filter becomes = / != on the value or a regular
+// expression match compared with 1 (=~) or 0 (!~).
+//@ fieldfunc LabelFilterPlanner.LabelValGetter(name)
+//@   modifies nothing
+//@ pure \(\*github\.com/metrico/qryn/reader/logql/logql_parser\.[A-Za-z]+\)\.String \(\*github\.com/metrico/qryn/reader/logql/logql_parser\.QuotedString\)\.Unquote
+//@ spec fn cmpIs(r sql.SQLObject, op string) bool = typeis(r, "*sql.LogicalOp") && unbox(r, "*sql.LogicalOp").fn == op && len(unbox(r, "*sql.LogicalOp").clauses) == 2
+//@ func (*LabelFilterPlanner).makeSimpleNumSqlCond [C07]
+//@   modifies nothing
+//@   ensures shape: result1 == nil ==> typeis(result0, "*sql.LogicalOp") && unbox(result0, "*sql.LogicalOp").fn == "and" && len(unbox(result0, "*sql.LogicalOp").clauses) == 2 && typeis(unbox(result0, "*sql.LogicalOp").clauses[0], "*notNull")
+//@   ensures eq: result1 == nil && expr.Fn == "==" ==> cmpIs(unbox(result0, "*sql.LogicalOp").clauses[1], "==")
+//@   ensures neq: result1 == nil && expr.Fn == "!=" ==> cmpIs(unbox(result0, "*sql.LogicalOp").clauses[1], "!=")
+//@   ensures gt: result1 == nil && expr.Fn == ">" ==> cmpIs(unbox(result0, "*sql.LogicalOp").clauses[1], ">")
+//@   ensures ge: result1 == nil && expr.Fn == ">=" ==> cmpIs(unbox(result0, "*sql.LogicalOp").clauses[1], ">=")
+//@   ensures lt: result1 == nil && expr.Fn == "<" ==> cmpIs(unbox(result0, "*sql.LogicalOp").clauses[1], "<")
+//@   ensures le: result1 == nil && expr.Fn == "<=" ==> cmpIs(unbox(result0, "*sql.LogicalOp").clauses[1], "<=")
+//@ func (*LabelFilterPlanner).makeSimpleStrSqlCond [C07]
+//@   modifies nothing
+//@   ensures eq: result1 == nil && expr.Fn == "=" ==> cmpIs(result0, "==") && typeis(unbox(result0, "*sql.LogicalOp").clauses[1], "*sql.StringVal")
+//@   ensures neq: result1 == nil && expr.Fn == "!=" ==> cmpIs(result0, "!=") && typeis(unbox(result0, "*sql.LogicalOp").clauses[1], "*sql.StringVal")
+//@   ensures re: result1 == nil && expr.Fn == "=~" ==> cmpIs(result0, "==") && typeis(unbox(result0, "*sql.LogicalOp").clauses[0], "*sqlMatch") && intOf(result0) == 1
+//@   ensures nre: result1 == nil && expr.Fn == "!~" ==> cmpIs(result0, "==") && typeis(unbox(result0, "*sql.LogicalOp").clauses[0], "*sqlMatch") && intOf(result0) == 0
+//@   ensures other-operators-rejected: expr.Fn != "=" && expr.Fn != "!=" && expr.Fn != "=~" && expr.Fn != "!~" ==> result1 != nil
